@@ -259,7 +259,7 @@ pub fn run(r: &mut Report, ctx: &Ctx) {
         }
 
         if ctx.want("step") {
-            let variants: Vec<usize> = if quick { vec![0, 2, 3] } else { vec![0, 1, 2, 3, 4] };
+            let variants: Vec<usize> = vec![0, 1, 2, 3, 4];
             let fillers: Vec<(u8, u8)> = if quick {
                 vec![(0x5a, 0xff)]
             } else {
@@ -472,11 +472,11 @@ pub fn run(r: &mut Report, ctx: &Ctx) {
         let dist_opts: Vec<Opts> = Opts::all().filter(|o| !o.conservative && !o.allow_small).collect();
         if ctx.want("quartile-shapes") {
             let classes = if quick { 3 } else { 4 };
-            for (v, nb) in [(0usize, 48usize), (1, 128), (3, 256)] {
+            for (v, nb) in [(0usize, 48usize), (1, 128), (2, 128), (3, 256), (4, 256)] {
                 let comps = compositions(nb, classes);
                 let ncomp = comps.len() as u64;
                 r.section(
-                    &format!("quartile-shapes-{nb}"),
+                    &format!("quartile-shapes-{nb}-{}", VARIANT_NAMES[v]),
                     "finalize on injected bucket arrays: every composition (n0..nk) of the effective buckets over a class alphabet x 6 value alphabets (incl. counts >= 2^24, >= 2^31, 2^32-1) x 3 placements x the 8 distribution-relevant option settings (length Valid) vs reference (full sort); distinct by enumeration; non-trivial = all; outcomes = distinct result vectors",
                     &format!("{ncomp} compositions of {nb} over {classes} classes x 6 alphabets x 3 placements x 8 options"),
                     true,
